@@ -46,10 +46,11 @@ Section VisSound.
 
   Definition ub (D : Q) (e : ext) : Prop := match e with EFin q => D <= q | _ => True end.
 
-  Lemma emin_opt_ub D e b : ub D e -> (forall q, b = Some q -> D <= q) -> ub D (emin_opt e b).
+  Lemma emin_opt_ub fixed D e b : ub D e -> (forall q, b = Some q -> D <= q) -> ub D (emin_opt fixed e b).
   Proof.
-    intros He Hb. destruct e as [|x|], b as [q|]; cbn; auto.
-    unfold qmin. destruct (qleb x q); [exact He|auto].
+    intros He Hb. destruct e as [|x|], b as [q|], fixed; cbn; auto.
+    - unfold qmin. destruct (qleb x q); [exact He|auto].
+    - unfold qmin. destruct (qleb x q); [exact He|auto].
   Qed.
   Lemma emin_ub D a b : ub D a -> ub D b -> ub D (emin a b).
   Proof.
@@ -80,15 +81,15 @@ Section VisSound.
 
   (* the distance bound used by relative-heading pruning holds in every scene that satisfies the visibility
      specifiers and the distance requirements *)
-  Theorem max_distance_sound i j d :
-    max_distance_between ego objs rels i j = EFin d -> dist (pos i) (pos j) <= d.
+  Theorem max_distance_sound fixed i j d :
+    max_distance_between fixed ego objs rels i j = EFin d -> dist (pos i) (pos j) <= d.
   Proof.
     unfold max_distance_between.
     set (D := dist (pos i) (pos j)).
-    set (v1 := if Nat.eqb i ego && req_vis (obj j) then emin_opt EInf (vis_bound (obj ego) (obj j)) else EInf).
-    set (v2 := if Nat.eqb j ego && req_vis (obj i) then emin_opt v1 (vis_bound (obj ego) (obj i)) else v1).
-    set (v3 := if obs_is (observer (obj i)) j then emin_opt v2 (vis_bound (obj j) (obj i)) else v2).
-    set (v4 := if obs_is (observer (obj j)) i then emin_opt v3 (vis_bound (obj i) (obj j)) else v3).
+    set (v1 := if Nat.eqb i ego && req_vis (obj j) then emin_opt fixed EInf (vis_bound (obj ego) (obj j)) else EInf).
+    set (v2 := if Nat.eqb j ego && req_vis (obj i) then emin_opt fixed v1 (vis_bound (obj ego) (obj i)) else v1).
+    set (v3 := if obs_is (observer (obj i)) j then emin_opt fixed v2 (vis_bound (obj j) (obj i)) else v2).
+    set (v4 := if obs_is (observer (obj j)) i then emin_opt fixed v3 (vis_bound (obj i) (obj j)) else v3).
     assert (U1 : ub D v1).
     { unfold v1. destruct (Nat.eqb i ego) eqn:E; cbn [andb]; [|exact I].
       destruct (req_vis (obj j)) eqn:RV; [|exact I].
@@ -267,7 +268,6 @@ Section RetryProofs.
 
   (* bufferHelper's loop ends as soon as the pitch has reached 1, where _bufferOverapproximate takes the
      bounding-box path and cannot fail: k doublings suffice from any pitch >= 2^-k *)
-  Hypothesis attempt_ext : forall p q, p == q -> attempt p = None -> attempt q = None.
   Theorem buffer_retry_terminates :
     (forall p, 1 <= p -> attempt p <> None) ->
     forall k p, 1 <= inject_Z (2 ^ Z.of_nat k) * p -> retry R attempt (S k) p <> None.
@@ -415,7 +415,10 @@ Section CycleProofs.
       assert (Mono : (out_count n (new ++ seen) <= out_count n seen)%nat)
         by (apply out_count_mono; apply incl_appr, incl_refl).
       destruct fl as [|d fl'] eqn:F.
-      + cbn [length]. nia.
+      + cbn [length].
+        assert (M2 : (D * out_count n (new ++ seen) <= D * out_count n seen)%nat)
+          by (apply Nat.mul_le_mono_l; exact Mono).
+        lia.
       + assert (Hd : In d fl) by (rewrite F; now left).
         unfold fl in Hd. apply filter_In in Hd. destruct Hd as [Hin Hneg].
         apply negb_true_iff in Hneg.
@@ -423,7 +426,9 @@ Section CycleProofs.
         { apply (out_count_strict seen (new ++ seen) d); [apply incl_appr, incl_refl| |exact Hneg|].
           - rewrite Forall_forall in Cn. now apply Cn.
           - apply in_or_app. now left. }
-        rewrite <- F. nia.
+        assert (M2 : (D * (out_count n (new ++ seen) + 1) <= D * out_count n seen)%nat)
+          by (apply Nat.mul_le_mono_l; lia).
+        rewrite Nat.mul_add_distr_l, Nat.mul_1_r in M2. lia.
   Qed.
 
   Theorem cycle_check_terminates a b :
